@@ -173,7 +173,17 @@ pub fn gen_text_n(rng: &mut Rng, sw: &Swarm, n: usize, ok: &dyn Fn(char) -> bool
     s
 }
 
+/// Text with content that means something elsewhere in the protocol (all of it legal in an
+/// ordinary UTF-8 string field).
+const SPECIAL_TEXT: [&str; 22] = [
+    "/", "+", "#", "$", "$share/g/t", "$SYS/x", "a/+/b", "a/#", "MQTT", "MQIsdp", "\u{0}", "a\u{0}b", "\u{feff}", "\u{feff}x",
+    "\u{1}", "\u{7f}", "\u{80}", "\u{fffd}", "\u{ffff}", " ", "\u{10ffff}", "\u{d7ff}\u{e000}",
+];
+
 pub fn gen_text(rng: &mut Rng, sw: &Swarm) -> Bs {
+    if rng.chance(1, 24) {
+        return Bs::s(SPECIAL_TEXT[rng.usize_below(SPECIAL_TEXT.len())]);
+    }
     let n = gen_len(rng, sw, 65_535);
     Bs(gen_text_n(rng, sw, n, &|_| true).into_bytes())
 }
@@ -304,18 +314,20 @@ pub fn gen_pid(rng: &mut Rng) -> u16 {
 }
 
 pub fn gen_u32(rng: &mut Rng) -> u32 {
-    match rng.below(6) {
+    match rng.below(8) {
         0 => 0,
         1 => u32::MAX,
         2 => 1,
+        3 => *rng.pick(&[255u32, 256, 65_535, 65_536, 0x00FF_FFFF, 0x0100_0000, 0x7FFF_FFFF, 0x8000_0000, 0x0000_FF00, 0xFF00_0000, 0x0102_0304, 268_435_455, 268_435_456]),
         _ => rng.u32(),
     }
 }
 
 pub fn gen_u16(rng: &mut Rng) -> u16 {
-    match rng.below(6) {
+    match rng.below(8) {
         0 => 0,
         1 => u16::MAX,
+        2 => *rng.pick(&[1u16, 127, 128, 255, 256, 0x00FF, 0xFF00, 0x0100, 0x7FFF, 0x8000, 0x0102, 60, 10]),
         _ => rng.u16(),
     }
 }
@@ -348,7 +360,22 @@ pub fn gen_prop_value(rng: &mut Rng, sw: &Swarm, id: u8) -> PVal {
             }
         }
         PType::Bin => PVal::Bin(gen_bin(rng, sw)),
-        PType::Pair => PVal::Pair(gen_text(rng, sw), gen_text(rng, sw)),
+        PType::Pair => {
+            let k = gen_text(rng, sw);
+            let v = match rng.below(12) {
+                0 => k.clone(),
+                1 => {
+                    // one a prefix of the other
+                    let mut x = k.0.clone();
+                    if x.len() < 65_535 {
+                        x.extend_from_slice(b"x");
+                    }
+                    Bs(x)
+                }
+                _ => gen_text(rng, sw),
+            };
+            PVal::Pair(k, v)
+        }
     }
 }
 
@@ -366,7 +393,13 @@ pub fn gen_props(rng: &mut Rng, sw: &Swarm, t: u8) -> Props {
             p.push((*id, gen_prop_value(rng, sw, *id)));
         }
     }
-    if sw.max_user_props > 0 && rng.below(20) < sw.opt_p.max(3) {
+    if rng.chance(1, 2500) && !tiny() {
+        // long user-property lists with tiny strings (inner counters, 8-bit wrap-arounds)
+        let n = *rng.pick(&[255usize, 256, 257]);
+        for i in 0..n {
+            p.push((0x26, PVal::Pair(Bs::s("k"), Bs(vec![b'a' + (i % 26) as u8]))));
+        }
+    } else if sw.max_user_props > 0 && rng.below(20) < sw.opt_p.max(3) {
         let n = if sw.max_user_props >= 64 && rng.chance(1, 8) {
             rng.urange(7, sw.max_user_props)
         } else {
@@ -393,7 +426,65 @@ fn payload_for(rng: &mut Rng, sw: &Swarm, props: &Props) -> Bs {
     }
 }
 
+/// Safety net of the generator: no text or binary field may exceed the 65,535 bytes a two-byte
+/// length prefix can express (a longer one would be outside every property's domain and would
+/// make the harness, not the library, responsible for a disagreement).
+pub fn clamp_domain(a: &mut Ast) {
+    fn clamp(b: &mut Bs) {
+        if b.0.len() > 65_535 {
+            let mut n = 65_535;
+            if let Ok(s) = std::str::from_utf8(&b.0) {
+                while !s.is_char_boundary(n) {
+                    n -= 1;
+                }
+            }
+            b.0.truncate(n);
+        }
+    }
+    fn clamp_props(p: &mut Props) {
+        for (_, v) in p.iter_mut() {
+            match v {
+                PVal::Str(b) | PVal::Bin(b) => clamp(b),
+                PVal::Pair(k, x) => {
+                    clamp(k);
+                    clamp(x);
+                }
+                _ => {}
+            }
+        }
+    }
+    if let Some(p) = a.props_mut() {
+        clamp_props(p);
+    }
+    match a {
+        Ast::Connect(c) => {
+            clamp(&mut c.client_id);
+            if let Some(u) = c.username.as_mut() {
+                clamp(u);
+            }
+            if let Some(u) = c.password.as_mut() {
+                clamp(u);
+            }
+            if let Some(w) = c.will.as_mut() {
+                clamp_props(&mut w.props);
+                clamp(&mut w.topic);
+                clamp(&mut w.payload);
+            }
+        }
+        Ast::Publish { topic, .. } => clamp(topic),
+        Ast::Subscribe { topics, .. } => topics.iter_mut().for_each(|(f, _)| clamp(f)),
+        Ast::Unsubscribe { topics, .. } => topics.iter_mut().for_each(clamp),
+        _ => {}
+    }
+}
+
 pub fn gen_packet_of(rng: &mut Rng, sw: &Swarm, t: u8) -> Ast {
+    let mut a = gen_packet_raw(rng, sw, t);
+    clamp_domain(&mut a);
+    a
+}
+
+fn gen_packet_raw(rng: &mut Rng, sw: &Swarm, t: u8) -> Ast {
     let v5 = sw.fam.is_v5();
     match t {
         1 => {
@@ -459,7 +550,7 @@ pub fn gen_packet_of(rng: &mut Rng, sw: &Swarm, t: u8) -> Ast {
             Ast::Ack { kind: t, pid: gen_pid(rng), code, props }
         }
         8 => {
-            let n = 1 + rng.small(5);
+            let n = if rng.chance(1, 1500) && !tiny() { *rng.pick(&[255usize, 256, 257, 300]) } else { 1 + rng.small(5) };
             let topics = (0..n)
                 .map(|_| {
                     let o = if v5 {
@@ -473,20 +564,20 @@ pub fn gen_packet_of(rng: &mut Rng, sw: &Swarm, t: u8) -> Ast {
             Ast::Subscribe { pid: gen_pid(rng), props: gen_props(rng, sw, 8), topics }
         }
         9 => {
-            let n = rng.small(6);
+            let n = if rng.chance(1, 1500) && !tiny() { *rng.pick(&[255usize, 256, 257, 1000]) } else { rng.small(6) };
             let codes = (0..n)
                 .map(|_| if v5 { *rng.pick(spec::reason_codes(9)) } else { *rng.pick(&spec::V3_SUBACK_CODES) })
                 .collect();
             Ast::Suback { pid: gen_pid(rng), props: gen_props(rng, sw, 9), codes }
         }
         10 => {
-            let n = 1 + rng.small(5);
+            let n = if rng.chance(1, 1500) && !tiny() { *rng.pick(&[255usize, 256, 257, 300]) } else { 1 + rng.small(5) };
             let topics = (0..n).map(|_| gen_topic_filter(rng, sw)).collect();
             Ast::Unsubscribe { pid: gen_pid(rng), props: gen_props(rng, sw, 10), topics }
         }
         11 => {
             let codes = if v5 {
-                let n = rng.small(6);
+                let n = if rng.chance(1, 1500) && !tiny() { *rng.pick(&[255usize, 256, 257]) } else { rng.small(6) };
                 (0..n).map(|_| *rng.pick(spec::reason_codes(11))).collect()
             } else {
                 vec![]
